@@ -59,7 +59,7 @@ def main():
                 case = json.load(fh)
             out = mod.replay(case)
             res.dist["corpus cases replayed"] += 1
-            if out:
+            if isinstance(out, dict):
                 res.failures.append(out)
     if a.search:
         res.merge(mod.search(tier, seed))
